@@ -17,6 +17,8 @@ type childJob struct {
 	SnapDir  string `json:"snap_dir"` // if set: copy of the WAL dir after every call that returned an error
 	Views    bool   `json:"views"`    // log a digest of the running store's LoadAllEntries after every call
 	MaxFail  int    `json:"max_fail"` // if >0: after that many failed calls skip to the final close
+	// faults injected at the log-writer interface (apifault_test.go); counted over the whole process
+	APIFaults []apiFault `json:"api_faults,omitempty"`
 	Ops      []op   `json:"ops"`
 }
 
@@ -59,6 +61,10 @@ func TestC14Child(t *testing.T) {
 		}
 	}
 	var ws walStore
+	var inj *apiInjector
+	if len(job.APIFaults) > 0 {
+		inj = &apiInjector{faults: job.APIFaults, fired: func(what string) { say("F %s", what) }}
+	}
 	view := func() string {
 		if !job.Views || ws == nil {
 			return "-"
@@ -122,6 +128,9 @@ func TestC14Child(t *testing.T) {
 			ws, err = openStore(job.Base)
 			if err != nil {
 				ws = nil
+			} else if inj != nil && !installAPIFaults(ws, inj) {
+				say("X %d api-fault-wrapper-not-installed", i)
+				os.Exit(4)
 			}
 		}
 		if err != nil {
